@@ -51,6 +51,15 @@ func init() {
 		vpkg + "ConcreteBool": func(fr *frame, a []value) value { return fr.in.truth(a[0]) },
 		vpkg + "Par":      func(fr *frame, a []value) value { fr.in.par(fr, a[0].([]value)); return nil },
 		vpkg + "Interleave": func(fr *frame, a []value) value { fr.in.interleave(fr, a[0], a[1]); return nil },
+		vpkg + "FixClock": func(fr *frame, a []value) value {
+			ns := fr.in.concInt(a[0])
+			if ns == 0 {
+				fr.in.fixedClock = nil
+			} else {
+				fr.in.fixedClock = &ns
+			}
+			return nil
+		},
 		vpkg + "Yield":    func(fr *frame, a []value) value { fr.in.yield(); return nil },
 		vpkg + "Param": func(fr *frame, a []value) value {
 			if x, ok := fr.in.x.cfg.Params[str(a[0])]; ok {
@@ -81,6 +90,7 @@ func init() {
 		// sync/atomic
 		"(*sync/atomic.Value).Load":  atomicValueLoad,
 		"(*sync/atomic.Value).Store": atomicValueStore,
+		"sync/atomic.LoadPointer": atomicLoad, "sync/atomic.StorePointer": atomicStore, "sync/atomic.LoadUintptr": atomicLoad, "sync/atomic.StoreUintptr": atomicStore,
 		"sync/atomic.LoadInt32":      atomicLoad, "sync/atomic.LoadInt64": atomicLoad, "sync/atomic.LoadUint32": atomicLoad, "sync/atomic.LoadUint64": atomicLoad,
 		"sync/atomic.StoreInt32": atomicStore, "sync/atomic.StoreInt64": atomicStore, "sync/atomic.StoreUint32": atomicStore, "sync/atomic.StoreUint64": atomicStore,
 		"sync/atomic.AddInt32": atomicAdd, "sync/atomic.AddInt64": atomicAdd, "sync/atomic.AddUint32": atomicAdd, "sync/atomic.AddUint64": atomicAdd,
@@ -104,6 +114,8 @@ func init() {
 			}
 			return false
 		},
+		"os.Hostname": func(fr *frame, a []value) value { return tuple{"verif-host", iface{}} },
+		"os.Getenv":   func(fr *frame, a []value) value { return "" },
 		"time.Sleep":         func(fr *frame, a []value) value { return nil },
 		// math/rand: fresh symbolic values within the documented range (DESIGN.md §3.5)
 		"math/rand.Seed":   func(fr *frame, a []value) value { return nil },
